@@ -66,6 +66,20 @@ CHECKS = {
         technique="Lean 4 proof (ordered-field algebra + real analysis) + differential correspondence + independent geometric oracle",
         ref="5/C14",
     ),
+    "C04": dict(
+        text="Theorems (Lean 4): rot1/2/3 and the polar-motion matrix are orthogonal, rot(-t) is the transpose; skewSymmetric(w)v = w x v and is "
+             "antisymmetric; eci2ecef and ecef2eci are mutually inverse on position and velocity and rigid for any orthogonal reduction matrices; "
+             "SEZ rotations are mutually inverse and rigid; cartesian2spherical/spherical2cartesian and razel/sez are inverse (direction-cosine "
+             "form) with the stated range; RSW/NTW bases are orthonormal so rsw2eci inverts eci2rsw; lla2ecef lies on the ellipsoid with altitude "
+             "along the normal; dayOfYear equals the independent civil calendar for every Gregorian date of every year and consecutive dates "
+             "(month ends, 28/29 Feb, 31 Dec/1 Jan) are consecutive days; the sidereal angle advances linearly within a year and is continuous "
+             "to 1e-9 rad across every year boundary 1990-2059 (exact rational kernel evaluation on the extracted constants). Tied to the code by "
+             "differential runs with the real reduction matrices as inputs, round-trip oracles and a rotation-continuity probe around boundaries.",
+        note=BASE_TB + "sin/cos/sqrt/arcsin/arctan2 are oracle inputs with their identities as hypotheses; nutation/precession series and the EOP table are data; "
+             "ecef2lla is covered by the round-trip oracle only; continuity allows the jump explained by the EOP table's own daily dUT1 step.",
+        technique="Lean 4 proof (polynomial identities, omega over the calendar, kernel-evaluated finite table) + differential correspondence + round-trip/continuity oracles",
+        ref="5/C04",
+    ),
 }
 
 PLANNED = {}
